@@ -40,6 +40,14 @@ func main() {
 	dirs := []string{"server", "server/wrapped_http", "logging", "prover"}
 	yields, listens := 0, 0
 	for _, d := range dirs {
+		ents, _ := os.ReadDir(filepath.Join(root, d))
+		for _, e := range ents {
+			if !e.IsDir() && strings.HasSuffix(e.Name(), ".go") && !strings.HasSuffix(e.Name(), "_test.go") {
+				collectOnce(filepath.Join(root, d, e.Name()))
+			}
+		}
+	}
+	for _, d := range dirs {
 		ents, err := os.ReadDir(filepath.Join(root, d))
 		if err != nil {
 			fmt.Fprintf(os.Stderr, "instrument: %v\n", err)
@@ -64,6 +72,50 @@ func main() {
 		fmt.Fprintln(os.Stderr, "instrument: no X.ListenAndServe() call found in package server (listener seam not found)")
 		os.Exit(1)
 	}
+}
+
+// onceNames collects the names of struct fields and variables declared with type sync.Once
+// anywhere in the instrumented directories (a syntactic approximation of "X is a sync.Once").
+var onceNames = map[string]bool{}
+
+func collectOnce(path string) {
+	src, err := os.ReadFile(path)
+	if err != nil {
+		return
+	}
+	fset := token.NewFileSet()
+	f, err := parser.ParseFile(fset, path, src, 0)
+	if err != nil {
+		return
+	}
+	isOnce := func(e ast.Expr) bool {
+		if st, ok := e.(*ast.StarExpr); ok {
+			e = st.X
+		}
+		sel, ok := e.(*ast.SelectorExpr)
+		if !ok {
+			return false
+		}
+		id, ok := sel.X.(*ast.Ident)
+		return ok && id.Name == "sync" && sel.Sel.Name == "Once"
+	}
+	ast.Inspect(f, func(n ast.Node) bool {
+		switch x := n.(type) {
+		case *ast.Field:
+			if isOnce(x.Type) {
+				for _, nm := range x.Names {
+					onceNames[nm.Name] = true
+				}
+			}
+		case *ast.ValueSpec:
+			if x.Type != nil && isOnce(x.Type) {
+				for _, nm := range x.Names {
+					onceNames[nm.Name] = true
+				}
+			}
+		}
+		return true
+	})
 }
 
 func rewrite(path, rel string, lookForListen bool) (int, int, error) {
@@ -119,6 +171,24 @@ func rewrite(path, rel string, lookForListen bool) (int, int, error) {
 					locks++
 				case "Unlock", "RUnlock":
 					sp = append(sp, splice{off: xs, del: end - xs, text: fmt.Sprintf("simyield.Unlock(%s.%s)", recv, sel.Sel.Name)})
+					locks++
+				}
+			}
+			// X.Do(f) on a sync.Once X -> simyield.OnceDo(X.Do, f)
+			if sel, ok := x.Fun.(*ast.SelectorExpr); ok && sel.Sel.Name == "Do" && len(x.Args) == 1 {
+				last := ""
+				switch r := sel.X.(type) {
+				case *ast.Ident:
+					last = r.Name
+				case *ast.SelectorExpr:
+					last = r.Sel.Name
+				}
+				if onceNames[last] {
+					xs, xe := fset.Position(sel.X.Pos()).Offset, fset.Position(sel.X.End()).Offset
+					as := fset.Position(x.Args[0].Pos()).Offset
+					recv := string(src[xs:xe])
+					// replace "X.Do(" by "simyield.OnceDo(X.Do, " and keep the argument and ")" as they are
+					sp = append(sp, splice{off: xs, del: as - xs, text: "simyield.OnceDo(" + recv + ".Do, "})
 					locks++
 				}
 			}
